@@ -483,6 +483,9 @@ class SimPeer:
         if body == 'http404':
             raise urllib.error.HTTPError(url, 404, 'Not Found', email.message.Message(), None)
         plan = self.plans.get(url)
+        if isinstance(body, (list, tuple)) and body and body[0] == 'eio':
+            # ('eio', offset, bytes): the transfer breaks after `offset` bytes (a reset / time-out in mid-body)
+            return SimResponse(url, body[2], plan=Plan.from_json(plan) if plan else None, faults={'eio': body[1]})
         return SimResponse(url, body, plan=Plan.from_json(plan) if plan else None)
 
     def inject(self, url, faults):
